@@ -29,8 +29,15 @@ var defects = []string{"import-cycle", "import-self", "include-cycle", "typedef-
 func str(s string) *sg.TypeSpec { return &sg.TypeSpec{Name: s} }
 
 func inject(mods []*sg.Mod, d string, pick func(n int) int) {
-	m := mods[pick(len(mods))]
-	last := mods[len(mods)-1]
+	// modules that carry data nodes (or submodules of such): pure deviation modules are not injection sites
+	var cands []*sg.Mod
+	for _, x := range mods {
+		if len(x.Nodes) > 0 || x.BelongsTo != "" {
+			cands = append(cands, x)
+		}
+	}
+	m := cands[pick(len(cands))]
+	last := cands[len(cands)-1]
 	// definitions may be injected into a submodule; the data nodes that use them go into the module it belongs to
 	host := m
 	if m.BelongsTo != "" {
@@ -168,6 +175,30 @@ func genCase(t *rapid.T) Case {
 	c := Case{Mods: g.GenSet(), Reps: 4}
 	if fw.Thorough() {
 		c.Reps = 8
+	}
+	if g.Chance(1, 4, "layereddev") {
+		// two deviation modules, one importing the other, replace the same property of the same leaf: the outcome
+		// depends on the order of application, which must be the same on every run (names chosen so that the
+		// alphabetical order contradicts the dependency order)
+		m0 := c.Mods[0]
+		for _, top := range m0.Nodes {
+			done := false
+			for _, k := range top.Kids {
+				if k.Kind == "leaf" && k.Type != nil && k.Type.Name == "string" && k.Default != nil && len(k.IfFeatures) == 0 && k.When == "" && len(top.IfFeatures) == 0 && top.When == "" {
+					target := "/t0:" + top.Name + "/t0:" + k.Name
+					c.Mods = append(c.Mods,
+						&sg.Mod{Name: "zdev-a", Prefix: "zda", Imports: []sg.Import{{Mod: m0.Name, Prefix: "t0"}},
+							Deviations: []*sg.Deviation{{Target: target, Deviates: []sg.Deviate{{Kind: "replace", Stmts: []string{`default "from-a";`}}}}}},
+						&sg.Mod{Name: "adev-b", Prefix: "adb", Imports: []sg.Import{{Mod: m0.Name, Prefix: "t0"}, {Mod: "zdev-a", Prefix: "za"}},
+							Deviations: []*sg.Deviation{{Target: target, Deviates: []sg.Deviate{{Kind: "replace", Stmts: []string{`default "from-b";`}}}}}})
+					done = true
+					break
+				}
+			}
+			if done {
+				break
+			}
+		}
 	}
 	if g.Chance(2, 5, "defect") {
 		c.Defect = defects[g.Pick(len(defects), "which")]
